@@ -437,7 +437,11 @@ def expectations(case, stack):
     for name, value in case['headers']:
         hdr[name.lower()] = value
     scheme = case['scheme']
-    default_port = 443 if scheme == 'https' else 80
+    if stack == 'asgi' and case.get('asgi_ws'):
+        # WebSocket connection scope (falcon.asgi.Request as built for on_websocket / process_request_ws):
+        # the scheme is ws / wss; default ports 80 / 443 (RFC 6455 section 3)
+        scheme = {'http': 'ws', 'https': 'wss'}[scheme]
+    default_port = 443 if scheme in ('https', 'wss') else 80
     E, B = {}, set()
 
     # ---- plain
@@ -622,6 +626,9 @@ def expectations(case, stack):
             not _is_ipv4(sname) else FREE
         B.add('host.absent')
         B.add('netloc.server_default_port' if int(sport) == default_port else 'netloc.server_other_port')
+
+    if scheme in ('ws', 'wss'):
+        B.add('ws.host_header' if host is not None else 'ws.no_host_header')
 
     # ---- URL composition
     rel = case['root_path'] + case['path'] + ('?' + case['query'] if case['query'] else '')
